@@ -1,1 +1,14 @@
-
+//! zmodel — a model of the Zstandard format (RFC 8878), independent of ruzstd.
+//!  * `frame`: spec encoder (FrameSpec -> bytes) and spec executor (FrameSpec -> plaintext)
+//!  * `walker`: strict parser/decoder (bytes -> structure + plaintext, or the reason for rejection)
+//!  * `fse`, `huf`, `bits`, `xxh`, `dict`: the pieces, transcribed from the RFC
+//! Bound to reality on every run by the harness: frames emitted here must be accepted by libzstd with the
+//! executor's plaintext; frames emitted by libzstd must be accepted by the walker with libzstd's plaintext.
+pub mod bits;
+pub mod dict;
+pub mod frame;
+pub mod fse;
+pub mod huf;
+pub mod tables;
+pub mod walker;
+pub mod xxh;
